@@ -114,6 +114,10 @@ pub fn parse_byte_list(input: &str) -> Result<Vec<u8>, DataError> {
     let real_len = char_count.saturating_sub(start_quote_count * 2);
 
     if start_quote_count >= 2 {
+        if input.len() < start_quote_count * 2 {
+            return Err(DataError::from(format!("Byte list {:?} is missing its closing quotes", input)));
+        }
+
         parse_byte_list_numbers(&input[start_quote_count..(input.len() - start_quote_count)])
     } else {
         let mut check_escape = false;
